@@ -196,7 +196,7 @@ PROPS = {
         "timeout": {"quick": 300, "thorough": 3000},
     },
     "C12": {
-        "suites": ["c12", "c15"],
+        "suites": ["c12", "c15", "c12conc"],
         "assumptions": COMMON_ASSUME + [
             "the thrift encodings are those of Tally/Model/Thrift.lean (C16: byte-for-byte differential against the generated client); sizes in the spec are measured with that codec on the received bytes",
             "a metric's charge is fixed at allocation and value-independent, so 'charged >= bytes with the worst value of its kind' per metric + 'reserved overhead >= everything that is not a metric' + 'charges of a batch <= freeBytes' are judged per datagram; together they imply the bound for every batch composition (theorem datagram_le_max)",
@@ -210,7 +210,7 @@ PROPS = {
         "timeout": {"quick": 300, "thorough": 3000},
     },
     "C13": {
-        "suites": ["c13"],
+        "suites": ["c13", "c13fault"],
         "assumptions": COMMON_ASSUME + [
             "a concurrent history is represented by the order in which its sends on metCh, its tag-cache accesses and its clock stores took effect (the queue totally orders the sends; cache and interner are lock protected and monotone); the bounded queue only delays senders",
             "the harness logs reports per producer goroutine; emitted metrics are matched to log entries by name and kind in per-producer order (names are distinct per producer), values / tags / timestamps of the matched pairs are then judged clause by clause; tally.internal.* telemetry sent by Flush is excluded from the matching",
